@@ -15,6 +15,7 @@ structure RegInv (s : St) : Prop where
   closureIn : ∀ r, s.rUnreg r = .closure → s.rBad r = false → r ∈ s.registry (s.rMeter r)
   /-- only a registration the placeholder accepted can be marked; fresh indices are unmarked -/
   badLt : ∀ r, s.rBad r = true → r < s.nR
+  noDrop : s.dropOnErr = false
   member : ∀ m r, r ∈ s.registry m → s.rUnreg r ≠ .sdk ∧ s.rMeter r = m ∧ r < s.nR
   lockedIn : ∀ t m r, s.frame t = .iRegLocked m r → r ∈ s.registry m
   closureZero : ∀ r, s.rUnreg r = .closure → s.sdkReg r = 0
@@ -44,7 +45,7 @@ theorem regInv_step {s s' : St} {t : Nat} {a : Act}
   have uc : ∀ r, s.rUnreg r ≠ .none → s.rUnreg r ≠ .sdk → s.rUnreg r = .closure := by
     intro r; cases s.rUnreg r <;> simp
   obtain ⟨o1⟩ := O
-  obtain ⟨i1, i2, i3, i4, i5, i6, i6b, i7, i8, i9, i10, i11, i12, i13⟩ := I
+  obtain ⟨i1, i2, i3, i4, i5, i6, i6b, i6c, i7, i8, i9, i10, i11, i12, i13⟩ := I
   cases a <;> lts_step h [List.Nodup.mem_erase_iff, List.nodup_append, List.Nodup.erase]
 
 theorem regInv_reachable {s : St} (h : Reachable false s) : RegInv s := by
